@@ -204,15 +204,15 @@ func ruleA1API(p *Prog, level string) *RuleResult {
 
 // Slice parameters that are documented output buffers.
 var outputBuffers = map[string]bool{
-	"(*roaring.Bitmap).FreezeTo|buf":          true,
-	"(*roaring.Bitmap).WriteDenseTo|bitmap":    true,
-	"(*roaring.manyIntIterator).NextMany|buf":  true,
+	"(*roaring.Bitmap).FreezeTo|buf":            true,
+	"(*roaring.Bitmap).WriteDenseTo|bitmap":     true,
+	"(*roaring.manyIntIterator).NextMany|buf":   true,
 	"(*roaring.manyIntIterator).NextMany64|buf": true,
 	"(*roaring64.manyIntIterator).NextMany|buf": true,
-	"(*internal.ByteBuffer).Read|p":            true,
-	"(*internal.ByteInputAdapter).Read|p":      true,
-	"(*internal.ByteInputAdapter).Read|buf":    true,
-	"(*internal.ByteBuffer).Read|buf":          true,
+	"(*internal.ByteBuffer).Read|p":             true,
+	"(*internal.ByteInputAdapter).Read|p":       true,
+	"(*internal.ByteInputAdapter).Read|buf":     true,
+	"(*internal.ByteBuffer).Read|buf":           true,
 }
 
 // directSliceWrites computes, for every repo function, the slice parameters whose backing array
